@@ -55,7 +55,9 @@ def c09(ctx: Ctx):
     ctx.assumptions = [
         "TLC and the CommunityModules (Json, CSV, SequencesExt, FiniteSetsExt)",
         "spec/Router.tla Failed() as the transcription of the C09 statement; path segments, literals, host labels and values are "
-        "atomic strings (no percent-encoding, no regex/wildcard path syntax, no '/' template); variables inside a segment "
+        "atomic strings in wire form (no regex/wildcard path syntax, no '/' template; the few percent-encoded strings are decoded "
+        "by table: a returned value may be the wire or the decoded text, an encoded slash is data, not a separator; query and "
+        "fragment are not part of the path); variables inside a segment "
         "(/v{n}, /files/report.{ext}, /{p}-{q}) are matched through the self-checked character dictionary Router!Cs and are "
         "demanded of gorillamux only -- for the legacy router, which documents non-support, documents with such a segment are "
         "an open region (no panic / non-route error is still demanded)",
@@ -142,7 +144,10 @@ def c09(ctx: Ctx):
                 "every fill of every template with values {a, b, v} under every declared server x GET/POST, near misses "
                 "(segment more/less, trailing slash(es), empty segment, literal-prefix segment), undeclared/unknown/lower-case "
                 "methods, URLs that miss or vary the server: scheme, host label, tld, host length, base, base continued inside "
-                "its last segment (/v1 -> /v10, /v1beta, /v1x, base glued to the first path segment), port, relative form); the "
+                "its last segment (/v1 -> /v10, /v1beta, /v1x, base glued to the first path segment), port, relative form), "
+                "every fill again with '?', '?a=1', '?a=1#top' and '#top' after the path, percent-encoded values (x%20y, a%2Fb) "
+                "in every variable position; a third small universe has the literal segment a%20b; base paths /my%20api "
+                "(relative, absolute, path-level) and /my%2Fapi are among the server shapes; the "
                 "requests of a document run in chunks of 16 on one instance of each router, main URLs as GET-then-POST pairs, and "
                 "every route object returned in a chunk is read again after the chunk's last request (held observation); "
                 "evaluations = (document, request, router) FindRoute calls judged by TLC; non-trivial = distinct (document, "
